@@ -454,6 +454,52 @@ func (tw *tworld) epHopRecord(id ident) (v verdict) {
 	return
 }
 
+// epHopRecordKnownRouter presents, as a hop record, the address of a router R
+// already knows (its peer X) together with a FOREIGN key that also signs the
+// record. Acceptance is observed as "the announcement was processed" (no handler
+// error / routing table changed), since a record for X exists anyway.
+func (tw *tworld) epHopRecordKnownRouter(foreign *m.Address) (v verdict) {
+	info := &m.RouterInfo{Version: "v"}
+	body, _ := cbor.Marshal(&router.AnnouncePingMsg{Info: info, ReturnLabel: 12, Expires: time.Now().Add(10 * time.Minute)})
+	xid := tw.x.Identity()
+	msg, _ := pingMsg(router.PingHeader{PingID: 44, PingType: "announce", AddrHash: xid.Hash, KeyType: xid.Type, PublicKey: xid.PublicKey}, body)
+	f, err := tw.x.FrameBuilder().NewFrameV1(xid.IP, m.RouterAddress, frame.RouterHopPingDeprecated, nil, msg, nil)
+	if err != nil {
+		panic(err)
+	}
+	signRaw(f, f, xid.PrivateKey, sigDRBG)
+	ctx := make([]byte, 16+8+64)
+	copy(ctx[:16], xid.IP.AsSlice())
+	m.PutUint64(ctx[16:24], uint64(f.SequenceTime().UnixMilli()))
+	copy(ctx[24:], f.AuthData())
+	forged := foreign.PublicAddress
+	forged.IP = xid.IP // the known router's address, the attacker's key
+	att := hopRecord{Router: forged, Delay: 5, ForwardLabel: 3, ReturnLabel: 4}
+	attData, _ := cbor.Marshal(att)
+	sig, _ := foreign.PrivateKey.Sign(nil, attData, &ed25519.Options{Context: string(ctx)})
+	if err := f.SetAppendixData(append(attData, sig...)); err != nil {
+		panic(err)
+	}
+	raw, _ := f.FrameDataWithMargins(0, 0)
+	raw = append([]byte(nil), raw...)
+	f.ReturnToPool()
+	before := kit.TableKey(tw.r)
+	npan := len(tw.w.Panics)
+	errs := tw.w.Inject(tw.x, tw.r, raw)
+	if len(tw.w.Panics) > npan {
+		v.panicked, v.detail = true, tw.w.Panics[len(tw.w.Panics)-1]
+	}
+	v.accepted = len(errs) == 0 || kit.TableKey(tw.r) != before
+	if k := tw.storedKey(xid.IP); string(k) != string(xid.PublicKey) {
+		v.accepted = true
+		v.leftover = "stored key of the known router was replaced"
+	}
+	if len(errs) > 0 {
+		v.detail = errs[0].Error()
+	}
+	return
+}
+
 type peeringRequest struct {
 	RouterVersion string          `cbor:"v,omitempty"`
 	Universe      string          `cbor:"u,omitempty"`
@@ -529,7 +575,7 @@ func epPeeringRequest(t *testing.T, id ident) (v verdict) {
 func TestC01(t *testing.T) {
 	env := kit.GetEnv()
 	rep := kit.NewReport("C01", env)
-	rep.Rule = "per base identity: the valid identity, every single field deviation (128 address bit flips + 7 foreign/invalid addresses, 14 other known + 4 unknown hash names incl. empty and 300-byte, 5 key-type names incl. empty/256-byte, 256 key bit flips + 5 odd key sizes + zero key, 3 easing values) at all six entry points; every PAIR of deviations of different fields at the pure entry points; ~50 self-consistent forgeries (address recomputed as the digest of a malformed identity: 5 hashes x 5 key-type names x 6 key sizes) and 6 well-formed identities whose matching digest lies outside fd00::/8, at all entry points; presentation sequences bad->good and good->bad on one long-lived router; generator over all subsets of a 5-prefix acceptable alphabet x all subsets of a 4-prefix ignore alphabet x maxEasing {0,3} (satisfiable ones + cheap unsatisfiable ones); non-trivial = case deviates from the valid identity; distinct = distinct (identity, entry point)"
+	rep.Rule = "per base identity: the valid identity, every single field deviation (128 address bit flips + 7 foreign/invalid addresses, 14 other known + 4 unknown hash names incl. empty and 300-byte, 5 key-type names incl. empty/256-byte, 256 key bit flips + 5 odd key sizes + zero key, 3 easing values) at all six entry points; every PAIR of deviations of different fields at the pure entry points; ~50 self-consistent forgeries (address recomputed as the digest of a malformed identity: 5 hashes x 5 key-type names x 6 key sizes) and 6 well-formed identities whose matching digest lies outside fd00::/8, at all entry points; the address of an already known router presented with a foreign key (hop record, ping header); presentation sequences bad->good and good->bad on one long-lived router; generator over all subsets of a 5-prefix acceptable alphabet x all subsets of a 4-prefix ignore alphabet x maxEasing {0,3} (satisfiable ones + cheap unsatisfiable ones); non-trivial = case deviates from the valid identity; distinct = distinct (identity, entry point)"
 	rep.Assumptions = []string{
 		"the reference predicate uses crop's hash primitives (not m/address.go) to recompute digests",
 		"key material inside the generator comes from the process RNG: the prefix-configuration space is exhaustive, the key space cannot be",
@@ -613,6 +659,21 @@ func TestC01(t *testing.T) {
 			tw = newTWorld()
 			judge("hop-record", id, tw.epHopRecord(id), false)
 			judge("peering-request", id, epPeeringRequest(t, id), false)
+		}
+
+		// the address of a router that is already known, presented with a foreign key.
+		if mine() {
+			tw := newTWorld()
+			id := ident{ip: pool[4].IP, hash: pool[2].Hash, typ: pool[2].Type, key: pool[2].PublicKey, priv: pool[2].PrivateKey, note: "known router's address with a foreign key"}
+			judge("hop-record/known-router", id, tw.epHopRecordKnownRouter(pool[2]), false)
+			tw = newTWorld()
+			judge("ping-header/known-router", id, func() verdict {
+				before := kit.TableKey(tw.r)
+				v := tw.epPingHeader(id)
+				// a record for X exists anyway: acceptance = the stored key changed or the ping was handled.
+				v.accepted = string(tw.storedKey(id.ip)) != string(pool[4].PublicKey) || kit.TableKey(tw.r) != before
+				return v
+			}(), false)
 		}
 
 		// private key corruptions at the storage entry point.
@@ -702,6 +763,8 @@ func fieldClass(id ident) string {
 	switch {
 	case n == "valid":
 		return "valid"
+	case strings.HasPrefix(n, "known router"):
+		return "known-address-foreign-key"
 	case strings.HasPrefix(n, "self-consistent identity outside"):
 		return "matching-digest-outside-fd00/8"
 	case strings.HasPrefix(n, "self-consistent"):
